@@ -463,6 +463,22 @@ def run(tier):
         if one['two_page_scripts'] < 1:
             corr.append('the page-crossing WriteTo of the probe did not produce a two-page mprotect script')
     st_line = st_lines[0] if st_lines else ops[0]
+    # interleaved model traces: the model on pseudo-random schedules (with lock contention) must give the observation of the
+    # sequential schedule (theorem C11.isolation, executed) — and therefore the implementation's
+    shuf_n = 0
+    if wexe and model is not None:
+        pick = list(range(min(n_real, 12 if tier == 'quick' else 200)))
+        sh_ops = [f'c11.shuffle {C.seed() * 7 + j} ' + ops[i].split(' ', 1)[1] for i in pick for j in (0, 1)]
+        shf = os.path.join(C.BUILD, 'c11.shuffle.ops')
+        open(shf, 'w').write('\n'.join(sh_ops) + '\n')
+        shm = C.run_driver(wexe, shf, os.path.join(C.BUILD, 'c11.shuffle.model'))
+        for n_, i in enumerate(i for i in pick for _ in (0, 1)):
+            shuf_n += 1
+            if shm[n_] != model[i]:
+                corr.append(f'model on an interleaved schedule differs from the sequential schedule on round {i}: {shm[n_][:200]} / {model[i][:200]}')
+                break
+        if shuf_n < 2:
+            raise C.Infra('interleaved-schedule lane ran nothing')
     nskel, skdiff = skeleton_lane(wexe) if wexe else (0, ['driver missing'])
     corr += ['lock skeleton differs — ' + d for d in skdiff]
     reach = unlocked_exports_reachable()
@@ -524,7 +540,7 @@ def run(tier):
             'builder_ops_total': tot('ops'), 'builder_ops_overlapping_another_builder': tot('overlap'),
             'same_page_pairs(target, other used location)': tot('share'), 'targets_whose_13_bytes_cross_a_page': tot('cross'),
             'race_reports': tot('races'), 'text_kb_diffed_per_round': int(ext[0].get('textkb', 0)) if ext else 0,
-            'strace_lane': st_results, 'strace_rounds_traced': sum(1 for x in st_results if isinstance(x, dict)),
+            'interleaved_model_schedules_compared': shuf_n, 'strace_lane': st_results, 'strace_rounds_traced': sum(1 for x in st_results if isinstance(x, dict)),
             'unlocked_exports_reachable_from_api': reach, 'source_skeletons_compared': nskel, 'source_skeleton_differences': skdiff,
         },
         'samples': [{'op': ops[i][:400], 'impl': (impl[i] or '')[:400], 'model': (model[i] if model else '')[:300]} for i in (0, n_real // 2, n_real - 1, len(ops) - 1)],
